@@ -20,6 +20,9 @@
 // ts (with a handler): what the handler's token source does while the message is sent: tserr (TokenSource fails), tokerr
 // (Token() fails), invalidgrant (Token() fails with oauth2 invalid_grant: the request goes out without a header).
 // bg=posthang: another call of the same session is in flight the whole time (its POST accepted, never answered).
+// proto=new: the session runs the 2026-07-28 protocol (server/discover instead of initialize): the peer sends no session
+// id (an answer `…:x` still carries one), there is no standalone stream. strict=1: StreamableClientTransport.strict.
+// close=w|f: ClientSession.Close is called 500 ms / 5 s after the message was started (record `closed`).
 // cancel=1: the caller's context is cancelled one virtual hour after the message was started, if it is still on its
 // way.  `hang`: the request method had not returned two virtual hours after the start (every goroutine blocked).
 package mcp
@@ -47,6 +50,8 @@ type cwScenario struct {
 	kind   string // call | notif
 	auth   string // none | grant | deny | block
 	ts     string // the handler's token source: "" = fine | tserr | tokerr | invalidgrant
+	proto  string // "" (2025-11-25, initialize, a session) | new (2026-07-28 after server/discover: no session id, no standalone stream)
+	strict bool   // StreamableClientTransport.strict
 	close  string // "" | w | f: the session is CLOSED 500 ms (w) / 5 s (f) of virtual time after the message was started
 	bg     string // "" | posthang: ANOTHER call of the same session is in flight meanwhile (its POST accepted, never answered)
 	cancel bool
@@ -68,7 +73,14 @@ func (s *cwScenario) op() string {
 	if s.close != "" {
 		ts += " close=" + s.close
 	}
-	return fmt.Sprintf("wscn kind=%s auth=%s%s cancel=%d a1=%s a2=%s", s.kind, s.auth, ts, c, s.a1, s.a2)
+	pre := ""
+	if s.proto != "" {
+		pre += "proto=" + s.proto + " "
+	}
+	if s.strict {
+		pre += "strict=1 "
+	}
+	return fmt.Sprintf("wscn %skind=%s auth=%s%s cancel=%d a1=%s a2=%s", pre, s.kind, s.auth, ts, c, s.a1, s.a2)
 }
 
 func cwParseScenario(line string) (*cwScenario, error) {
@@ -88,6 +100,13 @@ func cwParseScenario(line string) (*cwScenario, error) {
 			if v != "fine" {
 				s.ts = v
 			}
+		case "proto":
+			if v != "new" {
+				return nil, fmt.Errorf("bad proto")
+			}
+			s.proto = v
+		case "strict":
+			s.strict = v == "1"
 		case "close":
 			if v != "w" && v != "f" {
 				return nil, fmt.Errorf("bad close")
@@ -221,6 +240,14 @@ type cwHangBody struct{ ctx context.Context }
 func (b *cwHangBody) Read(p []byte) (int, error) { <-b.ctx.Done(); return 0, b.ctx.Err() }
 func (b *cwHangBody) Close() error               { return nil }
 
+// sid: the session id the peer puts on its answers ("" under the sessionless protocol)
+func (sv *cwServer) sid() string {
+	if sv.s.proto == "new" {
+		return ""
+	}
+	return "sess"
+}
+
 func (sv *cwServer) resp(req *http.Request, status int, ctype, sid, body string) *http.Response {
 	h := http.Header{}
 	if ctype != "" {
@@ -250,15 +277,15 @@ func (sv *cwServer) answer(req *http.Request, a string, idJSON string) (*http.Re
 			break
 		}
 		if rpc {
-			return sv.resp(req, code, "application/json", "sess", fmt.Sprintf(`{"jsonrpc":"2.0","id":%s,"error":{"code":-32000,"message":"verif-rpc-error"}}`, idJSON)), nil
+			return sv.resp(req, code, "application/json", sv.sid(), fmt.Sprintf(`{"jsonrpc":"2.0","id":%s,"error":{"code":-32000,"message":"verif-rpc-error"}}`, idJSON)), nil
 		}
-		return sv.resp(req, code, "", "sess", ""), nil
+		return sv.resp(req, code, "", sv.sid(), ""), nil
 	case strings.HasPrefix(a, "ok:"):
 		p := strings.Split(a, ":")
 		if len(p) != 3 {
 			break
 		}
-		sid := "sess"
+		sid := sv.sid()
 		if p[2] == "x" {
 			sid = "another-session"
 		}
@@ -289,6 +316,8 @@ func (sv *cwServer) answer(req *http.Request, a string, idJSON string) (*http.Re
 				r.Body = &cwOpenBody{data: rec.Body.Bytes(), ctx: req.Context()}
 			}
 			return r, nil
+		case "accepted":
+			return sv.resp(req, http.StatusAccepted, "", sid, ""), nil
 		case "other":
 			return sv.resp(req, 200, "text/plain", sid, "hello"), nil
 		}
@@ -318,16 +347,16 @@ func (sv *cwServer) RoundTrip(req *http.Request) (*http.Response, error) {
 			<-req.Context().Done()
 			return nil, req.Context().Err()
 		}
-		return sv.resp(req, http.StatusMethodNotAllowed, "", "sess", ""), nil // no standalone stream
+		return sv.resp(req, http.StatusMethodNotAllowed, "", sv.sid(), ""), nil // no standalone stream
 	case http.MethodPost:
 		body, _ := io.ReadAll(req.Body)
 		msg, err := jsonrpc.DecodeMessage(body)
 		if err != nil {
-			return sv.resp(req, 400, "", "sess", ""), nil
+			return sv.resp(req, 400, "", sv.sid(), ""), nil
 		}
 		r, ok := msg.(*jsonrpc.Request)
 		if !ok {
-			return sv.resp(req, http.StatusAccepted, "", "sess", ""), nil
+			return sv.resp(req, http.StatusAccepted, "", sv.sid(), ""), nil
 		}
 		idJSON := "1" // a JSON-RPC error sent in answer to a notification names some id (with id null the SDK does not decode it as a response)
 		if r.IsCall() {
@@ -367,14 +396,19 @@ func (sv *cwServer) RoundTrip(req *http.Request) (*http.Response, error) {
 			return nil, errors.New("verif: transport error")
 		}
 		switch {
+		case r.Method == methodDiscover:
+			if sv.s.proto != "new" {
+				return sv.resp(req, 400, "", sv.sid(), ""), nil
+			}
+			return sv.resp(req, 200, "application/json", "", fmt.Sprintf(`{"jsonrpc":"2.0","id":%s,"result":{"supportedVersions":[%q],"capabilities":{},"_meta":{%q:{"name":"verif","version":"0"}}}}`, idJSON, protocolVersion20260728, MetaKeyServerInfo)), nil
 		case r.Method == methodInitialize:
-			return sv.resp(req, 200, "application/json", "sess", fmt.Sprintf(`{"jsonrpc":"2.0","id":%s,"result":{"capabilities":{},"protocolVersion":%q,"serverInfo":{"name":"verif","version":"0"}}}`, idJSON, protocolVersion20251125)), nil
+			return sv.resp(req, 200, "application/json", sv.sid(), fmt.Sprintf(`{"jsonrpc":"2.0","id":%s,"result":{"capabilities":{},"protocolVersion":%q,"serverInfo":{"name":"verif","version":"0"}}}`, idJSON, protocolVersion20251125)), nil
 		case !r.IsCall():
-			return sv.resp(req, http.StatusAccepted, "", "sess", ""), nil
+			return sv.resp(req, http.StatusAccepted, "", sv.sid(), ""), nil
 		case r.Method == methodPing:
-			return sv.resp(req, 200, "application/json", "sess", fmt.Sprintf(`{"jsonrpc":"2.0","id":%s,"result":{}}`, idJSON)), nil
+			return sv.resp(req, 200, "application/json", sv.sid(), fmt.Sprintf(`{"jsonrpc":"2.0","id":%s,"result":{}}`, idJSON)), nil
 		}
-		return sv.resp(req, 400, "", "sess", ""), nil
+		return sv.resp(req, 400, "", sv.sid(), ""), nil
 	}
 	return sv.resp(req, 405, "", "", ""), nil
 }
@@ -396,6 +430,8 @@ func cwErrKind(err error) string {
 		return "session-missing"
 	case strings.Contains(m, "mismatching session IDs"):
 		return "mismatch"
+	case strings.Contains(m, "unexpected status code"):
+		return "unexpected-status"
 	case strings.Contains(m, "unsupported content type"):
 		return "ctype"
 	case strings.Contains(m, "failed to read body"):
@@ -453,13 +489,18 @@ func cwRun(t *testing.T, s *cwScenario) (res cwResult) {
 			}()
 			client := NewClient(&Implementation{Name: "verif", Version: "0"}, nil)
 			tr := &StreamableClientTransport{Endpoint: "http://verif.invalid/mcp", HTTPClient: &http.Client{Transport: sv}}
+			tr.strict = s.strict
+			pv := protocolVersion20251125
+			if s.proto == "new" {
+				pv = protocolVersion20260728
+			}
 			if s.auth != "none" {
 				ah = &cwAuth{mode: s.auth, ts: s.ts}
 				tr.OAuthHandler = ah
 			}
 			ctx, cancel := context.WithCancel(context.Background())
 			defer cancel()
-			cs, err := client.Connect(ctx, tr, &ClientSessionOptions{ProtocolVersion: protocolVersion20251125})
+			cs, err := client.Connect(ctx, tr, &ClientSessionOptions{ProtocolVersion: pv})
 			if err != nil {
 				res.end = "connect-failed:" + cwErrKind(err)
 				return
@@ -610,6 +651,12 @@ func cwEmit(out *verifOut, cs string, s *cwScenario, r cwResult, extra ...string
 	}
 	if s.ts != "" {
 		extra = append(extra, "ts-"+s.ts)
+	}
+	if s.proto != "" {
+		extra = append(extra, "proto-"+s.proto)
+	}
+	if s.strict {
+		extra = append(extra, "strict")
 	}
 	if s.bg != "" {
 		extra = append(extra, "bg-"+s.bg)
@@ -834,7 +881,7 @@ func coGenerate(emit func(*coScenario)) {
 
 func cwAnswers() []string {
 	return []string{"terr", "hang", "st401", "st403", "st401r", "st503", "st500r", "st429", "st404", "st404r", "st400", "st405", "st502",
-		"ok:json:s", "ok:json:x", "ok:jsonbad:s", "ok:jsoncut:s", "ok:jsonhang:s", "ok:sse:s", "ok:sse:x", "ok:other:s", "ok:sseopen:s", "ok:ssecuth:s", "ok:ssecutt:s"}
+		"ok:json:s", "ok:json:x", "ok:jsonbad:s", "ok:jsoncut:s", "ok:jsonhang:s", "ok:sse:s", "ok:sse:x", "ok:other:s", "ok:accepted:s", "ok:sseopen:s", "ok:ssecuth:s", "ok:ssecutt:s"}
 }
 
 func cwIsAuthStatus(a string) bool { return strings.HasPrefix(a, "st401") || strings.HasPrefix(a, "st403") }
@@ -926,6 +973,25 @@ func cwGenerate(emit func(*cwScenario, string)) {
 			}
 		}
 	}
+	// the modes: the sessionless protocol (2026-07-28 after server/discover: no session id, no standalone stream, no
+	// DELETE at Close unless an answer brought an id) and strict mode, x kind x handler x ctx x every answer
+	for _, mode := range [][2]string{{"new", ""}, {"", "1"}, {"new", "1"}} {
+		for _, kind := range []string{"call", "notif"} {
+			for _, auth := range []string{"none", "grant"} {
+				for _, cancel := range []bool{false, true} {
+					for _, a1 := range ans {
+						a2s := []string{"terr"}
+						if auth == "grant" && cwIsAuthStatus(a1) {
+							a2s = []string{"ok:json:s", "ok:json:x", "ok:accepted:s", "ok:sse:x", "hang", "st404", "st503", "ok:other:s"}
+						}
+						for _, a2 := range a2s {
+							put(&cwScenario{proto: mode[0], strict: mode[1] == "1", kind: kind, auth: auth, cancel: cancel, a1: a1, a2: a2}, "wm")
+						}
+					}
+				}
+			}
+		}
+	}
 	rng := verifRng(4242)
 	n := verifN(300, 3000)
 	if limit >= 0 {
@@ -955,6 +1021,12 @@ func cwGenerate(emit func(*cwScenario, string)) {
 		}
 		if rng.Intn(4) == 0 {
 			s.bg = "posthang"
+		}
+		if rng.Intn(4) == 0 {
+			s.proto = "new"
+		}
+		if rng.Intn(4) == 0 {
+			s.strict = true
 		}
 		if rng.Intn(5) == 0 && s.bg == "" && s.ts == "" {
 			// (with another call in flight Close waits for that one too; with a failing token source Close's DELETE is not sent)
